@@ -104,6 +104,20 @@ func H_C07_unknown(v *V) {
 	if !afterCmd && v.Choice(2) == 1 {
 		tail = append([]string{"c", "--cd"}, tail...)
 	}
+	if policy == 0 {
+		// a later token that would itself fail (or ask for help) must not
+		// replace the diagnosis of the first unknown option
+		switch v.Choice(4) {
+		case 1:
+			tail = append(tail, "--abc")
+		case 2:
+			tail = append(tail, "--qq")
+		case 3:
+			v.Assume(name != "help" && name != "h" && name != "?")
+			p.Options |= HelpFlag
+			tail = append(tail, "--help")
+		}
+	}
 	argv = append(argv, tail...)
 	rest, err := p.ParseArgs(argv)
 	vObsErr(v, err)
@@ -113,7 +127,7 @@ func H_C07_unknown(v *V) {
 		t, typed := vErrType(err)
 		v.Assert(err != nil && typed && t == ErrUnknownFlag, "an unknown option fails with ErrUnknownFlag")
 		if err != nil {
-			v.Assert(v.Contains(err.Error(), name), "the error names the unknown option")
+			v.Assert(v.Contains(err.Error(), "`"+name+"'"), "the error names the unknown option (the first one)")
 		}
 	case 1:
 		v.Assert(err == nil, "IgnoreUnknown: the parse succeeds")
